@@ -5615,11 +5615,29 @@ def merge_parts(parts, reassign="voice"):
     new_part._quarter_times = [0]
     new_part._quarter_durations = [lcm]
 
-    note_arrays = [part.note_array(include_staff=True) for part in parts]
     # find the unique number of voices for each part (voice numbers start from 1)
-    unique_voices = [np.unique(note_array["voice"]) for note_array in note_arrays]
-    # find the unique number of staves for each part
-    unique_staves = [np.unique(note_array["staff"]) for note_array in note_arrays]
+    unique_voices = [
+        np.unique(
+            [
+                e.voice
+                for e in part.iter_all(GenericNote, include_subclasses=True)
+                if e.voice is not None
+            ]
+        ).astype(int)
+        for part in parts
+    ]
+    # find the unique number of staves for each part (a missing staff counts
+    # as staff 1; rests, clefs and directions may be on staves without notes)
+    unique_staves = [
+        np.unique(
+            [
+                e.staff if e.staff is not None else 1
+                for cls in (GenericNote, Words, Direction, Clef)
+                for e in part.iter_all(cls, include_subclasses=True)
+            ]
+        ).astype(int)
+        for part in parts
+    ]
     # find the maximum number of voices for each part (voice numbers start from 1)
     maximum_voices = [max(unique_voice, default=1) for unique_voice in unique_voices]
     # find the maximum number of staves for each part
@@ -5710,7 +5728,7 @@ def merge_parts(parts, reassign="voice"):
                         # new voice is computed as the sum of voices in staves in previous parts, plus the current
                         e.voice = voice_mapping[e.voice]
                     if isinstance(e, (GenericNote, Words, Direction, Clef)):
-                        e.staff = staff_mapping[e.staff]
+                        e.staff = staff_mapping[e.staff if e.staff is not None else 1]
                 new_part.add(e, start=new_start, end=new_end)
 
                 # new_part.add(copy.deepcopy(e), start=new_start, end=new_end)
